@@ -460,6 +460,8 @@ extern "C" unsigned long long vs_clock_ns(void) {
 // the one guarded hook in /repo (src/tbb/scheduler_common.h machine_time_stamp)
 static uint64_t time_hook() { vtime += 500; return vtime; }
 extern "C" { uint64_t (*onetbb_verif_time_hook)() = nullptr; }
+// set by a harness that wants to know when task_arena::execute hands its functor over as an enqueued task (no free slot)
+extern "C" { void (*onetbb_verif_execute_delegated_hook)(const void*) = nullptr; }
 
 // ---------------------------------------------------------------------------------------------
 // begin / end
